@@ -154,6 +154,12 @@ def issues_from_crashes(ctx, crashes, label):
         s = vlib.sanitizer_signature(c["stderr"])
         if s is None:
             s = ("exit%d" % c["rc"], "?")
+        if s[1] == "?" and s[0] != "leak" and "drv_calstore.c" in c["stderr"]:
+            # no libvna frame: the driver itself is at fault
+            ctx.machinery_errors.append(
+                "drv_calstore crashed outside libvna in case %s: %s\n%s" %
+                (c["case"], s[0], c["stderr"][:1500]))
+            continue
         sig = "CalStore:crash:%s:%s" % s
         rp = ctx.save_replay("calstore-crash-%s.txt" % common.sig_hash(sig),
                              "case %s\nrc %s\n%s" % (c["case"], c["rc"],
